@@ -40,7 +40,12 @@ ELIGIBLE = {
     "del_items": (), "set_items": ("validator:items",),
     "set_sv": ("validator:sv",),
     "setq_v": ("validator:v",), "set_pv": ("validator:v",), "del_pv": (),
+    "read_dp": ("getter:dp",),
 }
+
+# getters that traits itself runs while it notifies the listeners of a property
+# (to provide the new value): a failure there is contained like a handler failure
+NOTIF_GETTERS = {"getter:dp"}
 
 # 'sv' of objs[0] and objs[1] are kept equal by sync_trait(mutual=True): the 2nd
 # validation during a set_sv is the partner's, made by the library's own change
@@ -146,6 +151,10 @@ class World:
             env.point("getter:cp")
             return obj.v + 1
 
+        def _get_dp(obj):
+            env.point("getter:dp")
+            return obj.v * 3
+
         def _v_changed(obj, old, new):
             events.append(("static_v", obj.uid))
             env.point("h:static_v")
@@ -158,13 +167,15 @@ class World:
             ns = {
                 "uid": T.Int(), "v": CV(), "sv": CSV(), "u": T.Union(CA(), CB()), "dflt": T.Any(),
                 "fac": T.Any(factory=fac), "p": T.Property(),
-                "cp": T.Property(observe="v"), "items": T.List(CI()),
+                "cp": T.Property(observe="v"), "dp": T.Property(depends_on="v"),
+                "items": T.List(CI()),
                 "d": T.Dict(T.Str, CD()), "s": T.Set(CS()), "sup": T.Supports(IFoo),
                 "partner": T.Instance(T.HasTraits), "dv": T.DelegatesTo("partner", prefix="v"),
                 "pv": T.PrototypedFrom("partner", prefix="v"),
                 "child": T.Instance(T.HasTraits),
                 "_dflt_default": _dflt_default, "_get_p": _get_p, "_set_p": _set_p,
-                "_get_cp": T.cached_property(_get_cp), "_v_changed": _v_changed,
+                "_get_cp": T.cached_property(_get_cp), "_get_dp": T.cached_property(_get_dp),
+                "_v_changed": _v_changed,
                 "_items_items_changed": _items_items_changed,
             }
             W = type(T.HasTraits)("W", (T.HasTraits,), ns)
@@ -257,6 +268,8 @@ class World:
             f = lambda: setattr(o, "p", val)                      # noqa: E731
         elif k == "read_cp":
             f = lambda: o.cp                                      # noqa: E731
+        elif k == "read_dp":
+            f = lambda: o.dp                                      # noqa: E731
         elif k == "items":
             f = lambda: list_call(o.items, op)                    # noqa: E731
         elif k == "del_items":
@@ -335,6 +348,9 @@ class World:
             # fault site): an empty cache == a cache holding the current value
             cache = d.get("_traits_cache_cp", UNSET)
             reads["cp-cache"] = "valid" if (cache is UNSET or cache == d.get("v", 0) + 1) \
+                else ("stale", cache)
+            cache = d.get("_traits_cache_dp", UNSET)
+            reads["dp-cache"] = "valid" if (cache is UNSET or cache == d.get("v", 0) * 3) \
                 else ("stale", cache)
             pop = {}
             for name in sorted(o._instance_traits()):
@@ -465,9 +481,9 @@ class Prop:
         nobj = deep(c, [2, 3], [4])
         handlers = []
         names_otc = ["v", "items", "items_items", "d_items", "s_items", "p", "cp", "dv", "u", "child",
-                     "dflt", "sup", "sv", "pv"]
+                     "dflt", "sup", "sv", "pv", "dp", "dp"]
         names_obs = ["v", "items.items", "d.items", "s.items", "child.v", "cp", "p", "items", "u",
-                     "child", "child.items.items", "sv", "pv"]
+                     "child", "child.items.items", "sv", "pv", "dp", "dp"]
         for j in range(c.randint(2, 6)):
             mech = c.choice(["otc", "obs"])
             handlers.append({"id": "h%d" % j, "mech": mech, "o": c.randrange(nobj),
@@ -487,8 +503,15 @@ class Prop:
         ops = []
         for _ in range(nops):
             o = r.randrange(nobj)
+            if r.random() < 0.08 and len(ops) + 5 <= nops:
+                # the life cycle of a property cache: fill, invalidate, fill, invalidate, read
+                rd = r.choice(["read_dp", "read_dp", "read_cp"])
+                for kk in (rd, "set_v", rd, "set_v", rd):
+                    ops.append({"k": kk, "o": o, "v": fresh()} if kk == "set_v"
+                               else {"k": kk, "o": o})
+                continue
             k = r.choice(["set_v", "set_v", "set_sv", "set_sv", "setq_v", "set_pv", "set_pv",
-                          "del_pv", "set_u", "read_dflt", "set_dflt", "read_fac", "read_p",
+                          "del_pv", "read_dp", "set_u", "read_dflt", "set_dflt", "read_fac", "read_p",
                           "set_p", "read_cp", "items", "items", "items", "del_items", "set_items",
                           "d", "d", "s", "s", "tl", "set_sup", "set_dv", "set_child", "reg", "unreg",
                           "probe"])
@@ -597,6 +620,15 @@ class Prop:
                 if site == "h:any":
                     continue
                 deciding = is_deciding(site)
+                if site in NOTIF_GETTERS and site not in elig:
+                    for nth in range(1, count + 1):
+                        for exc in FAULT_EXCS:
+                            inj = (i, site, nth, exc)
+                            if only is not None and list(inj) != list(only):
+                                continue
+                            injections += 1
+                            self.check_notif_getter(trace, A, inj, env)
+                    continue
                 if deciding and site not in elig:
                     continue
                 if not deciding and not site.startswith("h:"):
@@ -691,6 +723,59 @@ class Prop:
                                     data=list(inj))
         env.token(op["k"], site, min(nth, 3), exc, deciding)
         env.cover(op["k"], site, min(nth, 3), exc)
+        env.fired["raise"] += 1
+        env.planned["raise"] += 1
+
+    def check_notif_getter(self, trace, A, inj, env):
+        """The getter of a (depends_on) property raises while traits recomputes the
+        property to notify its listeners: contained like a handler failure - the
+        operation is complete, only the listeners of that property go without their
+        call - and the suffix agrees with the fault-free twin (caches compared by
+        read-equivalence)."""
+        i, site, nth, exc = inj
+        ops = trace["ops"]
+        op = ops[i]
+        cfg = trace["config"]
+        pname = site.split(":")[1]
+        B, envB = self.run_twin(trace, None, inject=inj)
+        env.seq += envB.seq
+        env.log("twinB", (list(inj), envB.digest()))
+        env.oracle_evals += 1
+        ra, rb = A[i], B[i]
+        what = "op %d (%s) with %s raised at call %d of %s (run by traits to notify the " \
+               "listeners of %s)" % (i, describe(op), exc, nth, site, pname)
+        if not rb["fired"]:
+            raise Violation("C19.fault-not-reached", "%s: not reached on the faulted twin" % what,
+                            i, data=list(inj))
+        if rb["key"] != ra["key"]:
+            raise Violation("C19.handler-fault-escaped",
+                            "%s: the operation's outcome changed from %r to %r"
+                            % (what, ra["key"], rb["key"]), i, data=list(inj))
+        if not same_snap(rb["snap"], ra["snap"]):
+            raise Violation("C19.incomplete-after-handler-fault",
+                            "%s: the operation is not complete: %s"
+                            % (what, diff_snap(ra["snap"], rb["snap"])), i, data=list(inj))
+        phids = {h["id"] for h in cfg["handlers"] if h["name"] == pname}
+        want = sorted(repr(e) for e in ra["events_raw"] if e[0] not in phids)
+        got = sorted(repr(e) for e in rb["events_raw"] if e[0] not in phids)
+        if got != want:
+            raise Violation("C19.handlers-skipped",
+                            "%s: other handlers did not all run: %s, expected %s"
+                            % (what, got, want), i, data=list(inj))
+        for j in range(i + 1, len(ops)):
+            if ops[j]["k"] == "setq_v":
+                # a quiet assignment of the dependency leaves whatever the cache holds
+                # in place (by design no listener hears of it): from here on a cache
+                # that was recomputed and one that was merely dropped read differently
+                break
+            a, b = A[j], B[j]
+            if a["key"] != b["key"] or not same_snap(a["snap"], b["snap"]) or a["events"] != b["events"]:
+                raise Violation("C19.suffix-differs",
+                                "%s: later op %d (%s) behaves differently from the fault-free "
+                                "twin: %s" % (what, j, describe(ops[j]), diff_rec(a, b)), i,
+                                data=list(inj))
+        env.token(op["k"], site, "notif", exc, False)
+        env.cover(op["k"], site, "notif", exc)
         env.fired["raise"] += 1
         env.planned["raise"] += 1
 
